@@ -344,4 +344,39 @@ example : ((exOpen {} exPfnSpec).bind (exOpen · exP2mSpec)).map (fun c => (c.xe
 example : (((exOpen {} exP2mSpec).map (fun c => (fetchXlat .ok c).2)).bind (exOpen · exPfnSpec)).map (fun c => ((fetchXlat .ok c).2.x, c.x))
     = some (⟨false, false⟩, ⟨true, true⟩) := by decide
 
+/-! ### Allocation failures while the indexes are built
+
+`make_xen_pfn_map_nonauto` builds both indexes in one pass and finishes (`pfn2idx_map_end`) first the
+guest-frame index, then the machine-frame index; every `realloc` of either may fail.  An open that
+reports success has finished BOTH builds — so the theorems above (stated for `mkDump`) apply to it —
+and a failure anywhere in the machine-frame build, in particular in its final flush, fails the open. -/
+
+/-- an open of a `.xen_p2m` dump that reports success holds both complete indexes -/
+theorem open_ok_both_complete (okP okM : Nat → Bool) (jP jM : Nat) (c c' : Ctx) (s : Spec)
+    (hp : s.p2m = true) (h : openCtx okP okM jP jM c s = some c') :
+    ∃ d, c'.file = some d ∧ build okP jP (pfns s.be s.tbl) = some d.pfnmap ∧
+      build okM jM (mfns s.be s.tbl) = some d.mfnmap := by
+  revert h
+  unfold openCtx openCommon closeFormat setXenXlat
+  simp only [hp, if_true]
+  cases build okP jP (pfns s.be s.tbl) <;> simp
+  cases build okM jM (mfns s.be s.tbl) <;> simp
+  intro h; subst h; simp
+
+/-- a failed allocation in the machine-frame index (any step, the final flush included) fails the open -/
+theorem open_fails_when_mfn_index_fails (okP okM : Nat → Bool) (jP jM : Nat) (c : Ctx) (s : Spec)
+    (hp : s.p2m = true) (hm : build okM jM (mfns s.be s.tbl) = none) :
+    openCtx okP okM jP jM c s = none := by
+  unfold openCtx openCommon closeFormat setXenXlat
+  simp only [hp, if_true, hm]
+  cases build okP jP (pfns s.be s.tbl) <;> simp
+
+/-- the final flush of a build is an allocation point: when the list is one run (no array exists yet)
+and that first `realloc` fails, the build fails -/
+theorem mapEnd_alloc_fails (ok : Nat → Bool) (m : PMap) (c : Range)
+    (hl : c.len > 1 ∨ c.len < -1) (hr : m.ranges.length % ALLOC_INC = 0) (hf : ok (nallocs m) = false) :
+    mapEnd ok m c = none := by
+  unfold mapEnd addrange
+  simp [hl, hr, hf]
+
 end Kdf.Props.C19
